@@ -106,6 +106,11 @@ def fx_cache(eng, st, pname):
     r = st.alloc(HObj("obj", ccls, fields={"_root": root, "_oid_to_node": idmap, "_provider": prov,
                                            "_metadata_template": tmpl, "_oid_type": C(ClassRef("str"))},
                       meta={"tag": "cache"}))
+    st.note("cache fixture: the id map is an open map of arbitrary content; ASSUMED representation facts: a node bound under key k "
+            "carries id k, weak parent references are alive (weakref.ref(x)() is x), children maps are open maps")
+    for nm in eng.cur_lemma.opts.get("stubs", {}):
+        st.note("%s is an arbitrary callee in lemma %s (logged, result arbitrary; its own body is not under this lemma)"
+                % (nm.split(":")[1], eng.cur_lemma.name))
     eng.inputs[pname] = "cache"
     return r
 
